@@ -18,7 +18,10 @@ import GqlModel.TypeInfoStacks
 `{"typeinfo":true,"schema":…,"doc":…}` → `{"recs":[…]}` the top-down TypeInfo of every observed node (unit c14ti);
   also `"mrecs"`: the rows the STACK MACHINE `GqlModel.TypeInfoStacks` (M of Props/C14TypeInfo) shows a wrapped visitor, in
   visiting order, `"mrecsSkip"`: the same when the visitor skips the nodes listed in `"skip":[[kind,start]…]`,
-  `"argsUnique"` / `"executable"`: the premises of `typeinfo_eq_context` evaluated on this case. -/
+  `"argsUnique"` / `"executable"`: the premises of `typeinfo_eq_context` evaluated on this case;
+  with `"shape":{"enter":b,"leave":b,"kindFuncs":{kind:[Kind?,Enter?,Leave?]},"enterKinds":[…],"leaveKinds":[…]}` (the
+  wrapped visitor's `VisitorOptions`: which callbacks exist) also `"mevents"`: `[slot, row…]` for every callback that
+  fires (slots K KE KL E L EM LM), M run through `visitO` with that option set and the skip list. -/
 open Lean GqlModel GqlModel.Validate
 
 namespace Driver.C02
@@ -72,6 +75,25 @@ def decSkips (j : Json) : List (String × Nat) :=
       | _ => none)
   | _ => []
 
+def decBool (j : Json) (k : String) : Bool := match j.getObjVal? k with | .ok (.bool b) => b | _ => false
+def decStrs (j : Json) (k : String) : List String :=
+  match j.getObjVal? k with
+  | .ok (.arr xs) => xs.toList.filterMap (fun x => match x with | .str s => some s | _ => none)
+  | _ => []
+
+/-- the wrapped visitor's option set (which callbacks exist), as a logging `Opts` -/
+def decShape (pol : TIRec → Bool) (sh : Json) : TypeInfoStacks.Opts (List (String × TIRec)) :=
+  let kfs : List (String × (Bool × Bool × Bool)) :=
+    match sh.getObjVal? "kindFuncs" with
+    | .ok (.obj kvs) => kvs.toList.filterMap (fun (k, v) => match v with
+        | .arr #[.bool a, .bool b, .bool c] => some (k, (a, b, c))
+        | _ => none)
+    | _ => []
+  let em := decStrs sh "enterKinds"
+  let lm := decStrs sh "leaveKinds"
+  TypeInfoStacks.loggerOpts pol (decBool sh "enter", decBool sh "leave") (fun k => kfs.lookup k)
+    (fun k => em.contains k) (fun k => lm.contains k)
+
 def handle (j : Json) : Except String Json := do
   match j.getObjVal? "introspection" with
   | .ok (.bool true) => return encIntrospection
@@ -85,7 +107,13 @@ def handle (j : Json) : Except String Json := do
     let rows (p : TIRec → Bool) : Json := Json.arr (((TypeInfoStacks.mRecords s p d).map TypeInfoStacks.row).map encRow).toArray
     return Json.mkObj [("recs", Json.arr ((tiRecords s d).map encTIRec).toArray),
       ("mrecs", rows TypeInfoStacks.noSkip), ("mrecsSkip", if skips.isEmpty then Json.null else rows pol),
-      ("argsUnique", TypeInfoStacks.argsUniqueB s), ("executable", TypeInfoStacks.isExecDoc d)]
+      ("argsUnique", TypeInfoStacks.argsUniqueB s), ("executable", TypeInfoStacks.isExecDoc d),
+      ("mevents", match j.getObjVal? "shape" with
+        | .ok sh => Json.arr ((TypeInfoStacks.mEvents s (decShape pol sh) d).map (fun e =>
+            match encRow (TypeInfoStacks.row e.2) with
+            | .arr xs => Json.arr (#[Json.str e.1] ++ xs)
+            | x => x)).toArray
+        | _ => Json.null)]
   | _ => pure ()
   let rules := registry.map (fun (nm, m, sp) =>
     let es := sp s d
